@@ -1656,3 +1656,144 @@ package goatlang
 //@ func (*token).String
 //@   property C03
 //@   trusted
+
+// ---------------------------------------------------------------------------------------------
+// C10: script maps. Abstract view: data (a Go map) + keys (insertion-ordered, lazily compacted).
+//   W1: every live key occurs in keys      W2: no live key occurs twice in keys
+// ---------------------------------------------------------------------------------------------
+//@ spec nmW1(m *numericMap) bool
+//@   def forall k float64 :: haskey(m.data, k) ==> inSlice(m.keys, k)
+//@ spec nmW2(m *numericMap) bool
+//@   def forall i int, j int :: 0 <= i && i < j && j < len(m.keys) && same(m.keys[i], m.keys[j]) ==> !haskey(m.data, m.keys[i])
+//@ spec nmWf(m *numericMap) bool
+//@   def m != nil && m.data != nil && nmW1(m) && nmW2(m)
+//@
+//@ extern golang.org/x/exp/maps.Keys(m map[float64]Value)
+//@   ensures len(result) == len(m) && isfresh(result)
+//@   ensures forall k float64 :: haskey(m, k) ==> inSlice(result, k)
+//@   ensures forall i int :: 0 <= i && i < len(result) ==> haskey(m, result[i])
+//@   ensures forall i int, j int :: 0 <= i && i < j && j < len(result) ==> !same(result[i], result[j])
+//@
+//@ func (*numericMap).Len
+//@   property C10
+//@   requires m != nil
+//@   nopanic
+//@   ensures result == len(m.data)
+//@
+//@ func (*numericMap).Get
+//@   property C10
+//@   requires nmWf(m)
+//@   nopanic
+//@   ensures#hit haskey(m.data, k.num) ==> result0 == m.data[k.num] && result1
+//@   ensures#miss !haskey(m.data, k.num) ==> result0 == newZero(m.valueType) && !result1
+//@
+//@ func (*numericMap).Set
+//@   property C10
+//@   requires nmWf(m) && valid(v)
+//@   modifies fields(m) elems(m.keys) M$F64$Value$dom M$F64$Value$val M$F64$Value$card
+//@   allocates elems(float64)
+//@   nopanic
+//@   ensures#value haskey(m.data, k.num) && m.data[k.num] == v.assign(m.valueType)
+//@   ensures#others forall k2 float64 :: !same(k2, k.num) ==> haskey(m.data, k2) == old(haskey(m.data, k2)) && m.data[k2] == old(m.data[k2])
+//@   ensures#len len(m.data) == old(len(m.data)) + ite(old(haskey(m.data, k.num)), 0, 1)
+//@   ensures#W1 nmW1(m)
+//@   ensures#W2 nmW2(m)
+//@   ensures#same m.data == old(m.data) && m.valueType == old(m.valueType) && m.keyType == old(m.keyType)
+//@
+//@ func (*numericMap).Delete
+//@   property C10
+//@   requires nmWf(m)
+//@   modifies fields(m) M$F64$Value$dom M$F64$Value$val M$F64$Value$card
+//@   allocates elems(float64)
+//@   nopanic
+//@   ensures#gone !haskey(m.data, k.num)
+//@   ensures#others forall k2 float64 :: !same(k2, k.num) ==> haskey(m.data, k2) == old(haskey(m.data, k2)) && m.data[k2] == old(m.data[k2])
+//@   ensures#len len(m.data) == old(len(m.data)) - ite(old(haskey(m.data, k.num)), 1, 0)
+//@   ensures#W1 nmW1(m)
+//@   ensures#W2 nmW2(m)
+
+//@ spec smW1(m *stringMap) bool
+//@   def forall k string :: haskey(m.data, k) ==> inSlice(m.keys, k)
+//@ spec smW2(m *stringMap) bool
+//@   def forall i int, j int :: 0 <= i && i < j && j < len(m.keys) && same(m.keys[i], m.keys[j]) ==> !haskey(m.data, m.keys[i])
+//@ spec smWf(m *stringMap) bool
+//@   def m != nil && m.data != nil && smW1(m) && smW2(m)
+//@
+//@ extern golang.org/x/exp/maps.Keys(m map[string]Value)
+//@   ensures len(result) == len(m) && isfresh(result)
+//@   ensures forall k string :: haskey(m, k) ==> inSlice(result, k)
+//@   ensures forall i int :: 0 <= i && i < len(result) ==> haskey(m, result[i])
+//@   ensures forall i int, j int :: 0 <= i && i < j && j < len(result) ==> !same(result[i], result[j])
+//@
+//@ func (*stringMap).Len
+//@   property C10
+//@   requires m != nil
+//@   nopanic
+//@   ensures result == len(m.data)
+//@
+//@ func (*stringMap).Get
+//@   property C10
+//@   requires smWf(m) && is(k.value, stringT)
+//@   nopanic
+//@   ensures#hit haskey(m.data, string(as(k.value, stringT))) ==> result0 == m.data[string(as(k.value, stringT))] && result1
+//@   ensures#miss !haskey(m.data, string(as(k.value, stringT))) ==> result0 == newZero(m.valueType) && !result1
+//@
+//@ func (*stringMap).Set
+//@   property C10
+//@   requires smWf(m) && valid(v) && is(k.value, stringT)
+//@   modifies fields(m) elems(m.keys) M$Str$Value$dom M$Str$Value$val M$Str$Value$card
+//@   allocates elems(string)
+//@   nopanic
+//@   ensures#value haskey(m.data, string(as(k.value, stringT))) && m.data[string(as(k.value, stringT))] == v.assign(m.valueType)
+//@   ensures#others forall k2 string :: !same(k2, string(as(k.value, stringT))) ==> haskey(m.data, k2) == old(haskey(m.data, k2)) && m.data[k2] == old(m.data[k2])
+//@   ensures#len len(m.data) == old(len(m.data)) + ite(old(haskey(m.data, string(as(k.value, stringT)))), 0, 1)
+//@   ensures#W1 smW1(m)
+//@   ensures#W2 smW2(m)
+//@   ensures#same m.data == old(m.data) && m.valueType == old(m.valueType) 
+//@
+//@ func (*stringMap).Delete
+//@   property C10
+//@   requires smWf(m) && is(k.value, stringT)
+//@   modifies fields(m) M$Str$Value$dom M$Str$Value$val M$Str$Value$card
+//@   allocates elems(string)
+//@   nopanic
+//@   ensures#gone !haskey(m.data, string(as(k.value, stringT)))
+//@   ensures#others forall k2 string :: !same(k2, string(as(k.value, stringT))) ==> haskey(m.data, k2) == old(haskey(m.data, k2)) && m.data[k2] == old(m.data[k2])
+//@   ensures#len len(m.data) == old(len(m.data)) - ite(old(haskey(m.data, string(as(k.value, stringT)))), 1, 0)
+//@   ensures#W1 smW1(m)
+//@   ensures#W2 smW2(m)
+
+// ---- map iteration (C10): the iterator closure over the snapshot r of keys ----
+//@ func (*numericMap).Range
+//@   property C10
+//@   requires m != nil
+//@   nopanic
+//@ func (*numericMap).Range closure 0
+//@   property C10
+//@   captures#fresh n == 0 && r == m.keys
+//@   requires m != nil && m.data != nil && 0 <= n && n <= len(r)
+//@   modifies B$Int
+//@   nopanic
+//@   ensures#yield result2 ==> old(n) < n && n <= len(r) && same(result0.num, r[n-1]) && result0.t == m.keyType && haskey(m.data, r[n-1]) && result1 == m.data[r[n-1]] && (forall j int :: old(n) <= j && j < n-1 ==> !haskey(m.data, r[j]))
+//@   ensures#done !result2 ==> n == len(r) && (forall j int :: old(n) <= j && j < len(r) ==> !haskey(m.data, r[j]))
+//@   ensures#mono old(n) <= n
+//@ func (*numericMap).Range closure 0 loop 0
+//@   invariant old(n) <= n && n <= len(r)
+//@   invariant forall j int :: old(n) <= j && j < n ==> !haskey(m.data, r[j])
+//@
+//@ func (*stringMap).Range
+//@   property C10
+//@   requires m != nil
+//@   nopanic
+//@ func (*stringMap).Range closure 0
+//@   property C10
+//@   captures#fresh n == 0 && r == m.keys
+//@   requires m != nil && m.data != nil && 0 <= n && n <= len(r)
+//@   modifies B$Int
+//@   nopanic
+//@   ensures#yield result2 ==> old(n) < n && n <= len(r) && result0 == String(r[n-1]) && haskey(m.data, r[n-1]) && result1 == m.data[r[n-1]] && (forall j int :: old(n) <= j && j < n-1 ==> !haskey(m.data, r[j]))
+//@   ensures#done !result2 ==> n == len(r) && (forall j int :: old(n) <= j && j < len(r) ==> !haskey(m.data, r[j]))
+//@   ensures#mono old(n) <= n
+//@ func (*stringMap).Range closure 0 loop 0
+//@   invariant old(n) <= n && n <= len(r)
+//@   invariant forall j int :: old(n) <= j && j < n ==> !haskey(m.data, r[j])
